@@ -23,40 +23,41 @@ func init() {
 			"the production driver runs on real goroutines and timers: its schedules are not reproducible bit by bit, its verdicts do not depend on them",
 		},
 		Require: map[string]int64{
-			"children_without_stuck_sync":      16, // every child of the run (quick and thorough: 16) judged all its syncs
-			"sessions_completed":               2000,
-			"sessions_interrupted":             800,
-			"sessions_commit_aborted":          100,
-			"crash_prefixes_order_checked":     50000,
-			"crash_prefixes_resumed":           2000,
-			"resumes_completed":                2000,
-			"cases_with_shared_nodes":          800,
-			"raw_blobs":                        2000,
-			"cases_with_embedded_nodes":        300,
-			"raw_blobs_shared_by_accounts":     300,
-			"storage_roots_shared_by_accounts": 300,
-			"offer_honest":                     50000,
-			"offer_dup":                        1000,
-			"offer_late":                       1000,
-			"offer_unrequested":                1000,
-			"offer_bitflip":                    200,
-			"offer_truncated":                  200,
-			"offer_other-node":                 200,
-			"rej_not_requested":                2000,
-			"rej_already_processed":            500,
-			"rerequests":                       1000,
-			"unanswered_rounds":                1000,
-			"cases_prod":                       100,
-			"cases_trie":                       500,
-			"cases_state":                      500,
-			"dl_syncs_nil":                     150,
-			"dl_syncs_error":                   10,
-			"dl_resumes":                       10,
-			"dl_corrupt_items":                 100,
-			"dl_partial_answers":               30,
-			"dl_mode_drop":                     10,
-			"dl_mode_nil":                      10,
-			"dl_mode_empty":                    10,
+			"children_without_stuck_sync":       16, // every child of the run (quick and thorough: 16) judged all its syncs
+			"sessions_completed":                2000,
+			"dl_destination_write_failures_hit": 20, // production syncs whose destination database failed a batch write (full disk), final flush included
+			"sessions_interrupted":              800,
+			"sessions_commit_aborted":           100,
+			"crash_prefixes_order_checked":      50000,
+			"crash_prefixes_resumed":            2000,
+			"resumes_completed":                 2000,
+			"cases_with_shared_nodes":           800,
+			"raw_blobs":                         2000,
+			"cases_with_embedded_nodes":         300,
+			"raw_blobs_shared_by_accounts":      300,
+			"storage_roots_shared_by_accounts":  300,
+			"offer_honest":                      50000,
+			"offer_dup":                         1000,
+			"offer_late":                        1000,
+			"offer_unrequested":                 1000,
+			"offer_bitflip":                     200,
+			"offer_truncated":                   200,
+			"offer_other-node":                  200,
+			"rej_not_requested":                 2000,
+			"rej_already_processed":             500,
+			"rerequests":                        1000,
+			"unanswered_rounds":                 1000,
+			"cases_prod":                        100,
+			"cases_trie":                        500,
+			"cases_state":                       500,
+			"dl_syncs_nil":                      150,
+			"dl_syncs_error":                    10,
+			"dl_resumes":                        10,
+			"dl_corrupt_items":                  100,
+			"dl_partial_answers":                30,
+			"dl_mode_drop":                      10,
+			"dl_mode_nil":                       10,
+			"dl_mode_empty":                     10,
 		},
 	}
 }
